@@ -20,6 +20,8 @@
 #include <nix/Platform.hpp>
 #include <nix/util/util.hpp>
 
+#include <algorithm>
+
 
 namespace nix {
 
@@ -319,6 +321,9 @@ public:
         if (ticks.size() == 0) {
             throw nix::InvalidDimension("The ticks of a range dimension must not be empty!",
                                         "DataArray::appendRangeDimension");
+        }
+        if (!std::is_sorted(ticks.begin(), ticks.end())) {
+            throw nix::UnsortedTicks("DataArray::appendRangeDimension");
         }
         RangeDimension dim = backend()->createRangeDimension(backend()->dimensionCount() + 1, ticks);
         if (label.size() > 0)
